@@ -213,8 +213,11 @@ def gen_case(rng: random.Random, intensify: bool) -> dict:
         # through the public `prepare(table)`; half of these on a builder that has been prepared
         # for ANOTHER table before (the map is inferred afresh for each source)
         case["via_prepare"] = True
-        if rng.random() < 0.5:
+        r_ = rng.random()
+        if r_ < 0.4:
             case["prev_cols"] = gen_columns(rng, build_pool(rng, feats), intensify)
+        elif r_ < 0.7:
+            case["prev_same_header_edited"] = True
     return case
 
 
@@ -290,6 +293,20 @@ def run_real(case: dict) -> tuple[str, Any, list]:
                         try:
                             b.prepare(pd.DataFrame(columns=list(case["prev_cols"])))
                         except Exception:  # noqa: BLE001  (the earlier table may be one it refuses)
+                            pass
+                    if case.get("prev_same_header_edited"):
+                        # another builder inferred the map for the SAME header before and its owner edited
+                        # that map in place (as the docstring of prepare() invites)
+                        b1 = B()
+                        b1.ndim = b.ndim
+                        b1.available_computed_features = b.available_computed_features
+                        try:
+                            b1.prepare(pd.DataFrame(columns=cols))
+                            m1 = b1.node_name_map
+                            for k_ in list(m1)[::2]:
+                                del m1[k_]
+                            m1["edited_by_owner"] = "no_such_column"
+                        except Exception:  # noqa: BLE001
                             pass
                     b.prepare(pd.DataFrame(columns=cols))
                     out = b.node_name_map
